@@ -195,6 +195,10 @@ func init() {
 		in.quiesce(c.g)
 		return nil
 	}
+	rtIntrinsics["vSleep"] = func(in *Interp, c *callCtx) Value {
+		in.schedPoint(c.g, "sleep")
+		return nil
+	}
 	rtIntrinsics["vGoroutines"] = func(in *Interp, c *callCtx) Value {
 		n := 0
 		for _, g := range in.gs {
